@@ -313,11 +313,16 @@ class Gen15:
                 uniq.append(f)
         r.shuffle(uniq)
         heads = set(c["head"]["p"] for c in self.clauses)
+        used = set()
+        for c in self.clauses:
+            pos, neg = dc.body_preds(c)
+            used.update(pos + neg)
         init, pre = [], []
         split = r.random() < 0.3
         for f in uniq:
-            # the caller's store only holds facts of extensional predicates
-            (pre if (split and f["p"] not in heads and r.random() < 0.5) else init).append(f)
+            # the caller's store only holds facts of extensional predicates that the rules
+            # mention (a predicate the program never mentions is neither EDB nor IDB for Explain)
+            (pre if (split and f["p"] not in heads and f["p"] in used and r.random() < 0.5) else init).append(f)
         if idb_init_rec:
             self.feats.add("idb-init-recursive")
         return {"clauses": self.clauses, "layers": strat, "init": init, "pre": pre,
@@ -393,31 +398,57 @@ def var_id(sym):
     raise ValueError("binding of an unexpected variable %r" % sym)
 
 
-def cq_node(n):
-    k = n["k"]
-    if k == "nil":
-        return C("POther", (0, []), [])
-    f = dc.cq_fact(go_fact(n["fact"]))
-    prems = [cq_node(c) for c in n.get("prem") or []]
-    partial = bool(n.get("partial"))
-    ri = n["ri"] if n["ri"] >= 0 else BAD_RI
-    if k == "edb":
-        return C("PLeaf", f)
-    if k == "absence":
-        return C("PAbsent", f)
-    if k == "derived":
-        bs = [(var_id(b[0]), dc.cq_const(b[1])) for b in n.get("b") or []]
-        return C("PDerived", Raw("%d%%nat" % ri), bs, f, partial, prems)
-    if k == "let":
-        return C("PLet", Raw("%d%%nat" % ri), f, partial, prems)
-    return C("POther", f, prems)
+class Sharer:
+    """let-bound sharing inside one Coq term: every distinct fact and every distinct proof
+    node is elaborated once (coqc spends its time elaborating the literal, not judging)."""
+
+    def __init__(self):
+        self.defs, self.memo = [], {}
+
+    def ref(self, key, ty, mk):
+        if key not in self.memo:
+            term = mk()
+            nm = "x%d" % len(self.defs)
+            self.defs.append("let %s : %s := %s in" % (nm, ty, coq(term)))
+            self.memo[key] = Raw(nm)
+        return self.memo[key]
+
+    def fact(self, f):
+        return self.ref("F" + dc.fact_text(f), "fact", lambda: dc.cq_fact(f))
+
+    def node(self, n):
+        k = n["k"]
+        if k == "nil":
+            return C("POther", (0, []), [])
+        key = "N" + json.dumps([k, n["ri"], n.get("rule", ""), n["fact"], n.get("b"), bool(n.get("partial")),
+                                [c["id"] for c in n.get("prem") or []]], sort_keys=True) + content(n)
+        return self.ref(key, "pnode", lambda: self.mk_node(n))
+
+    def mk_node(self, n):
+        k = n["k"]
+        f = self.fact(go_fact(n["fact"]))
+        prems = [self.node(c) for c in n.get("prem") or []]
+        partial = bool(n.get("partial"))
+        ri = n["ri"] if n["ri"] >= 0 else BAD_RI
+        if k == "edb":
+            return C("PLeaf", f)
+        if k == "absence":
+            return C("PAbsent", f)
+        if k == "derived":
+            bs = [(var_id(b[0]), dc.cq_const(b[1])) for b in n.get("b") or []]
+            return C("PDerived", Raw("%d%%nat" % ri), bs, f, partial, prems)
+        if k == "let":
+            return C("PLet", Raw("%d%%nat" % ri), f, partial, prems)
+        return C("POther", f, prems)
 
 
-def cq_case(prog, store, goals, mode, need):
-    gl = [C("mkGoal", dc.cq_fact(go_fact(g["fact"])), [cq_node(n) for n in g[mode]["proofs"]]) for g in goals]
+def cq_case(prog, store, entries, ref):
+    """entries: [(goal fact (Go form), need, [proof nodes])] - one per (mode, goal)"""
+    sh = Sharer()
+    gl = [C("mkGoal", sh.fact(go_fact(gf)), bool(need), [sh.node(n) for n in proofs]) for gf, need, proofs in entries]
     base = prog.get("init", []) + prog.get("pre", [])
-    return coq(C("mkCase", dc.cq_program(prog), [dc.cq_fact(f) for f in base],
-                 [dc.cq_fact(f) for f in store], bool(need), gl))
+    body = coq(C("mkCase", dc.cq_program(prog), [sh.fact(f) for f in base], [sh.fact(f) for f in store], bool(ref), gl))
+    return "(" + "\n".join(sh.defs) + "\n" + body + ")"
 
 
 def content(n):
@@ -540,9 +571,9 @@ def evaluate(ck, progs, optss, origin, ref_every=4):
     go_cases = [go_case(p, o) for p, o in zip(progs, optss)]
     outs = ck.run_go("c15", go_cases, timeout=3000)
     ck.log("go side done: %d programs" % len(progs))
-    terms, where, ref_terms = [], [], []
+    terms, where = [], []
     st = {"stage": {}, "goals": 0, "proofs": {"posthoc": 0, "recorded": 0}, "noproof": {"posthoc": 0, "recorded": 0},
-          "nodes": 0, "max_depth": 0, "ids": 0, "rule_mismatch": 0, "store_diff": 0, "partial_proofs": 0}
+          "nodes": 0, "max_depth": 0, "ids": 0, "ref_runs": 0, "rule_mismatch": 0, "store_diff": 0, "partial_proofs": 0}
     for i, o in enumerate(outs):
         rep0 = {"property": "C15", "origin": origin[i], "program": progs[i], "opts": optss[i], "src": go_cases[i]["src"],
                 "pre": go_cases[i]["pre"]}
@@ -571,11 +602,12 @@ def evaluate(ck, progs, optss, origin, ref_every=4):
             st["ids"] += nids
             if bad and len(ck.violations) < 5:
                 ck.violation(dict(rep0, kind="proof identifiers are not a function of proof content", findings=bad[:3]))
+            entries, idx = [], []
             for mode in optss[i]["modes"]:
                 need = need_complete(progs[i], optss[i], mode)
-                terms.append(cq_case(progs[i], store, goals, mode, need))
-                where.append((i, mode, need))
-                for g in goals:
+                for gi, g in enumerate(goals):
+                    entries.append((g["fact"], need, g[mode]["proofs"]))
+                    idx.append((mode, gi, need))
                     st["proofs"][mode] += len(g[mode]["proofs"])
                     st["partial_proofs"] += sum(1 for p in g[mode]["proofs"] if has_partial(p))
                     if not g[mode]["proofs"]:
@@ -583,15 +615,16 @@ def evaluate(ck, progs, optss, origin, ref_every=4):
                 nn, dd = tree_stats(goals, mode)
                 st["nodes"] += nn
                 st["max_depth"] = max(st["max_depth"], dd)
-            if not progs[i].get("transforms") and i % ref_every == 0:
-                ref_terms.append(cq_case(progs[i], store, [dict(g, posthoc={"proofs": []}) for g in goals], "posthoc", True))
+            ref = (not progs[i].get("transforms")) and i % ref_every == 0
+            st["ref_runs"] += 1 if ref else 0
+            terms.append(cq_case(progs[i], store, entries, ref))
+            where.append((i, idx))
         except ValueError as e:
             if len(ck.violations) < 5:
                 ck.violation(dict(rep0, kind="Go produced a value outside the modelled fragment: %s" % e))
-    verdicts = ck.run_coq("C15", "judge", terms, shard=max(4, len(terms) // 32 + 1))
-    refv = ck.run_coq("C15", "judge_ref", ref_terms, shard=max(2, len(ref_terms) // 16 + 1), tag="ref")
-    ck.log("model side done: %d judged (program, mode) pairs, %d reference-explainer runs" % (len(terms), len(ref_terms)))
-    return outs, go_cases, where, verdicts, refv, st
+    verdicts = ck.run_coq("C15", "judge", terms, shard=max(4, len(terms) // 16 + 1))
+    ck.log("model side done: %d programs judged, %d reference-explainer runs" % (len(terms), st["ref_runs"]))
+    return outs, go_cases, where, verdicts, st
 
 
 def run(ck):
@@ -610,7 +643,9 @@ def run(ck):
         p = gen_program(rng, transforms)
         if p.get("transforms"):
             modes = ["recorded"]
-        elif "idb-init-recursive" in p["features"]:
+        elif "idb-init-recursive" in p["features"] or "wild" in p["features"]:
+            # recorded mode: known findings N80 (initial fact of a recursive predicate) and
+            # N83 (body atom with a wildcard)
             modes = ["posthoc"]
         else:
             modes = ["posthoc", "recorded"]
@@ -626,26 +661,30 @@ def run(ck):
             optss.append({"max_proofs": 1 + nexh % 2, "max_depth": 0, "modes": ["posthoc", "recorded"]})
             origin.append("exhaustive")
             nexh += 1
-    outs, go_cases, where, verdicts, refv, st = evaluate(ck, progs, optss, origin, ref_every=ck.n(4, 8))
+    outs, go_cases, where, verdicts, st = evaluate(ck, progs, optss, origin, ref_every=ck.n(4, 8))
     vc = {}
-    for (i, mode, need), v in zip(where, verdicts):
+    nref_bad = 0
+    for (i, idx), v in zip(where, verdicts):
         code = v % 10
         vc[code] = vc.get(code, 0) + 1
+        if code == 4:
+            nref_bad += 1
+            if nref_bad == 1:
+                ck.violation({"property": "C15", "kind": "reference explainer misses a goal or builds a rejected proof on the Go "
+                              "store (the Go store is not the least model of the program, or the model is wrong)",
+                              "program": progs[i], "opts": optss[i], "src": go_cases[i]["src"], "pre": go_cases[i]["pre"],
+                              "no_longer_checks": "Run.C15.judge_ref / Props/C15.v explain_ref_sound, proof_exists"},
+                             "no-failing-input-found")
+            continue
         if code < 2 or len(ck.violations) >= 5:
             continue
-        gi = v // 10 - 1
+        mode, gi, need = idx[v // 10 - 1]
         goal = outs[i]["out"]["goals"][gi]
         ck.violation({"property": "C15", "verdict": code, "kind": CODES[code], "mode": mode, "origin": origin[i],
                       "program": progs[i], "opts": optss[i], "src": go_cases[i]["src"], "pre": go_cases[i]["pre"],
                       "goal": goal["fact"], "go": goal[mode], "complete_proof_owed": need,
                       "why_violation": "Props/C15.v check_proof_exact: check_proof accepts exactly the valid acyclic "
                                        "derivations; proof_exists: every fact of the least model has one"})
-    nref_bad = sum(1 for v in refv if v != 0)
-    if nref_bad:
-        ck.violation({"property": "C15", "kind": "reference explainer misses a goal or builds a rejected proof on the Go store "
-                      "(the Go store is not the least model of the program, or the model is wrong)",
-                      "no_longer_checks": "Run.C15.judge_ref / Props/C15.v explain_ref_sound, proof_exists"},
-                     "no-failing-input-found")
     probes(ck)
     feats = {}
     for p in progs:
@@ -660,10 +699,10 @@ def run(ck):
         k = "max_proofs=%d max_depth=%d %s" % (o["max_proofs"], o["max_depth"], "+".join(o["modes"]))
         optd[k] = optd.get(k, 0) + 1
     cov = {"evaluations": st["proofs"]["posthoc"] + st["proofs"]["recorded"] + st["noproof"]["posthoc"] + st["noproof"]["recorded"],
-           "programs": len(progs), "goals": st["goals"], "judged_program_mode_pairs": len(where),
+           "programs": len(progs), "goals": st["goals"], "judged_programs": len(where),
            "proofs_judged": st["proofs"], "goals_without_proof": st["noproof"], "proofs_flagged_partial": st["partial_proofs"],
            "proof_nodes": st["nodes"], "max_proof_height": st["max_depth"], "identifiers_checked": st["ids"],
-           "reference_explainer_runs": len(refv), "distinct_nontrivial": len(nontrivial),
+           "reference_explainer_runs": st["ref_runs"], "distinct_nontrivial": len(nontrivial),
            "rule": "programs through parse -> AnalyzeOneUnit -> EvalProgram (without / with MemoryRecorder) -> Explain and "
                    "BuildFromRecording for every stored fact (corpus %d, random %d, exhaustive %d); evaluations = (goal, mode) "
                    "explanations judged by check_proof in Coq; non-trivial = recursion, negation, binding equality, initial "
@@ -700,14 +739,19 @@ def replay(ck, path):
     ck.build_harness()
     rep = json.load(open(path))
     prog, opts = rep["program"], rep["opts"]
-    outs, go_cases, where, verdicts, refv, st = evaluate(ck, [prog], [opts], ["replay"], ref_every=1)
+    outs, go_cases, where, verdicts, st = evaluate(ck, [prog], [opts], ["replay"], ref_every=1)
     bad = "out" not in outs[0] or outs[0]["out"]["stage"] != "ok" or st["store_diff"] or st["rule_mismatch"]
     if "out" in outs[0] and outs[0]["out"]["stage"] == "ok":
         b, _ = id_findings(outs[0]["out"]["goals"])
         bad = bad or bool(b)
-    for (i, mode, need), v in zip(where, verdicts):
-        print("replay: %s: verdict %d %s" % (mode, v, CODES.get(v % 10, "ok")))
-        bad = bad or v % 10 >= 2
+    for (i, idx), v in zip(where, verdicts):
+        code = v % 10
+        what = CODES.get(code, "reference explainer disagrees" if code == 4 else "ok")
+        if code in (2, 3):
+            mode, gi, need = idx[v // 10 - 1]
+            what += " (%s, goal %s)" % (mode, json.dumps(outs[i]["out"]["goals"][gi]["fact"]))
+        print("replay: verdict %d %s" % (v, what))
+        bad = bad or code >= 2
     if bad:
         print("VIOLATION property=C15 replay=%s" % path)
         return 1
